@@ -20,7 +20,8 @@
    (fl = false: len2 >= 1;  fl = true: len2 > 0). *)
 From Coq Require Import List Arith ZArith QArith Qreals Reals.
 Import ListNotations.
-From SV Require Import C05.EdgeMaps C05.Lemmas.
+From Coq Require Import Permutation.
+From SV Require Import C05.EdgeMaps C05.Lemmas C05.Wide.
 Local Open Scope R_scope.
 
 (* ---- the field as a whole: sum over the kept animals, channel order, no NaN ---- *)
@@ -330,6 +331,167 @@ Theorem c05_datapipe : forall fl fb exs sig s edges flat k H W smp,
 Proof. exact datapipe_nth. Qed.
 Print Assumptions c05_datapipe.
 
+(* ==== round 2: widened statements (proofs: C05/Wide.v) ==== *)
+
+(* ---- the whole property in one statement, for the code as repaired (fixed_len = true,
+   fixed_box = true: the variants the harness detects on /repo) ----
+   `spec_contrib sig a b c p inst v` (Wide.v) is the property's own description of what
+   one animal contributes to component c of edge (a,b) at image position p: v = 0 if an
+   endpoint is missing or the two endpoints coincide, otherwise
+   v = paf_weight sig D * (component c of the unit vector source -> destination) where D
+   is THE squared distance from p to the closed segment.  Channel 2e+c of the flattened
+   output, cell (i,j) = image position (j*stride, i*stride): the value is the sum of
+   exactly these contributions over the animals of sample 0 that have a node in the
+   closed image rectangle [0,W-1]x[0,H-1]; every term is well defined (never NaN). *)
+Theorem c05_repaired_field_is_sum_of_weighted_unit_vectors :
+  forall samples H W sig s edges e a b c i j,
+  (0 < sig)%Q -> (0 < s)%nat -> nth_error edges e = Some (a, b) -> (c < 2)%nat ->
+  (i * s < H)%nat -> (j * s < W)%nat ->
+  exists cl vs,
+    cell3 (generate_pafs_flat true true samples H W sig s edges) (2 * e + c) i j = Some cl /\
+    Forall2 (spec_contrib (Q2R sig) a b c (INR (j * s), INR (i * s)))
+            (filter (existsb (node_in_closed (nat_Q (W - 1)) (nat_Q (H - 1)))) (hd [] samples)) vs /\
+    cval cl = Rsum vs /\ Forall term_ok cl.
+Proof. exact repaired_field_spec. Qed.
+Print Assumptions c05_repaired_field_is_sum_of_weighted_unit_vectors.
+
+(* spec_contrib pins the value down (so the theorem above determines every cell) *)
+Theorem c05_spec_contribution_unique : forall sig a b c p inst v1 v2,
+  spec_contrib sig a b c p inst v1 -> spec_contrib sig a b c p inst v2 -> v1 = v2.
+Proof. exact spec_contrib_unique. Qed.
+Print Assumptions c05_spec_contribution_unique.
+
+(* ---- after the repair of F1 the projection-clamp statements hold for EVERY edge,
+   zero-length ones included (distance_to_edge / make_edge_maps are public and are
+   defined for coincident endpoints: the segment is the point itself) ---- *)
+Theorem c05_repaired_projected_distance_is_segment_distance : forall s d x y,
+  is_seg_dist2 (q2 s) (q2 d) (Q2R x, Q2R y) (Q2R (dist_edge true s d x y)).
+Proof. exact repaired_dist_is_seg_dist2. Qed.
+Print Assumptions c05_repaired_projected_distance_is_segment_distance.
+
+Theorem c05_repaired_weight_is_function_of_true_distance : forall sig s d x y v,
+  (0 < sig)%Q -> is_seg_dist2 (q2 s) (q2 d) (Q2R x, Q2R y) v ->
+  mweight true sig s d x y = paf_weight (Q2R sig) v.
+Proof. exact repaired_weight_true_distance. Qed.
+Print Assumptions c05_repaired_weight_is_function_of_true_distance.
+
+Theorem c05_repaired_weight_one_iff_on_segment : forall sig s d x y,
+  (0 < sig)%Q ->
+  (mweight true sig s d x y = 1 <-> on_segment (q2 s) (q2 d) (Q2R x, Q2R y)).
+Proof. exact repaired_weight_one_iff_on_segment. Qed.
+Print Assumptions c05_repaired_weight_one_iff_on_segment.
+
+Theorem c05_repaired_weight_nonincreasing_in_true_distance : forall sig s d x1 y1 x2 y2 v1 v2,
+  (0 < sig)%Q ->
+  is_seg_dist2 (q2 s) (q2 d) (Q2R x1, Q2R y1) v1 ->
+  is_seg_dist2 (q2 s) (q2 d) (Q2R x2, Q2R y2) v2 ->
+  v1 <= v2 -> mweight true sig s d x2 y2 <= mweight true sig s d x1 y1.
+Proof. exact repaired_weight_nonincreasing. Qed.
+Print Assumptions c05_repaired_weight_nonincreasing_in_true_distance.
+
+(* ---- never NaN below make_pafs: the projection is divided by a strictly positive
+   number for every edge in both variants (>= 1 in the old code), so distance_to_edge is
+   NaN exactly when an endpoint is; the distance is >= 0; a zero-length edge's distance is
+   the squared distance to the point; make_edge_maps is the exp of a number <= 0 ---- *)
+Theorem c05_projection_divisor_positive : forall fl s d, (0 < edge_len fl (len2 s d))%Q.
+Proof. exact edge_len_pos. Qed.
+Print Assumptions c05_projection_divisor_positive.
+
+Theorem c05_distance_defined_iff_endpoints_visible : forall fl s d x y,
+  dist_edge_opt fl s d x y = None <-> s = None \/ d = None.
+Proof. exact dist_edge_opt_none_iff. Qed.
+Print Assumptions c05_distance_defined_iff_endpoints_visible.
+
+Theorem c05_distance_nonnegative : forall fl s d x y, (0 <= dist_edge fl s d x y)%Q.
+Proof. exact dist_edge_nonneg. Qed.
+Print Assumptions c05_distance_nonnegative.
+
+Theorem c05_zero_length_edge_distance_is_point_distance : forall fl s d x y,
+  (len2 s d == 0)%Q -> (dist_edge fl s d x y == sq (x - fst s) + sq (y - snd s))%Q.
+Proof. exact dist_edge_degenerate. Qed.
+Print Assumptions c05_zero_length_edge_distance_is_point_distance.
+
+Theorem c05_edge_maps_cellwise : forall fl xv yv srcs dsts sig,
+  make_edge_maps fl xv yv srcs dsts sig =
+  map (fun y => map (fun x => map2 (fun s d => option_map (gauss_arg sig) (dist_edge_opt fl s d x y))
+                                   srcs dsts) xv) yv.
+Proof. exact make_edge_maps_eq. Qed.
+Print Assumptions c05_edge_maps_cellwise.
+
+Theorem c05_edge_map_defined_for_visible_endpoints : forall fl sig s d x y,
+  (0 < sig)%Q ->
+  exists a, option_map (gauss_arg sig) (dist_edge_opt fl (Some s) (Some d) x y) = Some a /\
+            (a <= 0)%Q /\ exp (Q2R a) = mweight fl sig s d x y.
+Proof. exact edge_map_cell_defined. Qed.
+Print Assumptions c05_edge_map_defined_for_visible_endpoints.
+
+(* tensor level: with every endpoint visible (coincident or not) no entry of
+   distance_to_edge / make_edge_maps is NaN, distances are >= 0 and the exponents <= 0 *)
+Theorem c05_distance_to_edge_never_nan : forall fl pts srcs dsts,
+  Forall (fun p : kp => p <> None) srcs -> Forall (fun p : kp => p <> None) dsts ->
+  Forall (Forall (Forall (fun o : option Q => exists v, o = Some v /\ (0 <= v)%Q)))
+         (distance_to_edge fl pts srcs dsts).
+Proof. exact distance_to_edge_defined. Qed.
+Print Assumptions c05_distance_to_edge_never_nan.
+
+Theorem c05_edge_maps_never_nan : forall fl xv yv srcs dsts sig,
+  (0 < sig)%Q ->
+  Forall (fun p : kp => p <> None) srcs -> Forall (fun p : kp => p <> None) dsts ->
+  Forall (Forall (Forall (fun o : option Q => exists a, o = Some a /\ (a <= 0)%Q)))
+         (make_edge_maps fl xv yv srcs dsts sig).
+Proof. exact make_edge_maps_defined. Qed.
+Print Assumptions c05_edge_maps_never_nan.
+
+(* get_edge_points is indexing: (animal k, edge e = (a,b)) -> (node a, node b) of animal k *)
+Theorem c05_get_edge_points : forall insts edges k e inst a b,
+  nth_error insts k = Some inst -> nth_error edges e = Some (a, b) ->
+  (exists row, nth_error (fst (get_edge_points insts edges)) k = Some row /\
+               nth_error row e = Some (node inst a)) /\
+  (exists row, nth_error (snd (get_edge_points insts edges)) k = Some row /\
+               nth_error row e = Some (node inst b)).
+Proof. exact get_edge_points_nth. Qed.
+Print Assumptions c05_get_edge_points.
+
+(* ---- edge lists: a self loop (u,u) contributes exactly zero; the reversed edge (b,a)
+   holds minus the field of (a,b); an edge listed twice gets identical channels ---- *)
+Theorem c05_self_loop_contributes_zero : forall fl sig a c x y inst,
+  animal_contrib fl sig a a c x y inst = None.
+Proof. exact self_loop_zero. Qed.
+Print Assumptions c05_self_loop_contributes_zero.
+
+Theorem c05_repaired_reversed_edge_negates : forall sig a b c x y inst,
+  (0 < sig)%Q ->
+  pval (animal_contrib true sig b a c x y inst) = - pval (animal_contrib true sig a b c x y inst).
+Proof. exact reversed_edge_negates. Qed.
+Print Assumptions c05_repaired_reversed_edge_negates.
+
+Theorem c05_duplicate_edges_equal_channels : forall fl fb samples H W sig s edges e e' ab c i j,
+  (0 < s)%nat -> nth_error edges e = Some ab -> nth_error edges e' = Some ab -> (c < 2)%nat ->
+  (i * s < H)%nat -> (j * s < W)%nat ->
+  cell4 (generate_pafs fl fb samples H W sig s edges) e c i j =
+  cell4 (generate_pafs fl fb samples H W sig s edges) e' c i j.
+Proof. exact duplicate_edges_equal_channels. Qed.
+Print Assumptions c05_duplicate_edges_equal_channels.
+
+(* ---- "fields add" is order-free: permuting the animals permutes the terms of every cell
+   and leaves its value unchanged (NaN padding anywhere in the list changes nothing);
+   only sample 0 of the (n_samples, ...) input is read, as documented ("n_samples=1") ---- *)
+Theorem c05_animal_order_irrelevant : forall fl fb l1 l2 rest H W sig s edges e a b c i j,
+  Permutation l1 l2 ->
+  (0 < s)%nat -> nth_error edges e = Some (a, b) -> (c < 2)%nat ->
+  (i * s < H)%nat -> (j * s < W)%nat ->
+  exists v1 v2,
+    cell4 (generate_pafs fl fb (l1 :: rest) H W sig s edges) e c i j = Some v1 /\
+    cell4 (generate_pafs fl fb (l2 :: rest) H W sig s edges) e c i j = Some v2 /\
+    Permutation v1 v2 /\ cval v1 = cval v2.
+Proof. exact animal_order_irrelevant. Qed.
+Print Assumptions c05_animal_order_irrelevant.
+
+Theorem c05_only_sample_0_is_used : forall fl fb smp rest H W sig s edges,
+  generate_pafs fl fb (smp :: rest) H W sig s edges = generate_pafs fl fb [smp] H W sig s edges.
+Proof. exact only_sample_0. Qed.
+Print Assumptions c05_only_sample_0_is_used.
+
 (* non-vacuity: concrete inputs meet the hypotheses; a kept animal's cell on its segment
    holds exactly one term *)
 Example ex_c05_nonvacuous :
@@ -339,3 +501,23 @@ Proof. eexists. vm_compute. reflexivity. Qed.
 
 Example ex_c05_len_ok : len_ok false (1, 2)%Q (1, 5)%Q.
 Proof. apply len_ok_of_ge1. vm_compute. discriminate. Qed.
+
+(* non-vacuity of the round-2 statements *)
+Example ex_c05_spec_contrib_zero_length :
+  spec_contrib 1 0 1 0 (0, 0) [Some (1, 2)%Q; Some (1, 2)%Q] 0.
+Proof. unfold spec_contrib. cbn [node nth]. split; [reflexivity|]. intros H. exfalso. apply H. vm_compute. reflexivity. Qed.
+
+Example ex_c05_repaired_border_animal_kept :
+  exists t, cell3 (generate_pafs_flat true true [[[Some (0, 2)%Q; Some (0, 5)%Q]]] 8 8 (3#2)%Q 1 [(0, 1)%nat]) 1 3 0
+            = Some [t].
+Proof. eexists. vm_compute. reflexivity. Qed.
+
+Example ex_c05_degenerate_edge_map : (dist_edge true (1, 2)%Q (1, 2)%Q 4 6 == 25)%Q.
+Proof. vm_compute. reflexivity. Qed.
+
+Example ex_c05_permutation : Permutation [[Some (1, 2)%Q]; [None]] [[None]; [Some (1, 2)%Q]].
+Proof. apply perm_swap. Qed.
+
+Example ex_c05_coincident_endpoints_edge_map_defined :
+  make_edge_maps true [0; 1]%Q [0]%Q [Some (1, 0)%Q] [Some (1, 0)%Q] 1 = [[[Some (-1#2)%Q]; [Some (0#2)%Q]]].
+Proof. vm_compute. reflexivity. Qed.
